@@ -155,6 +155,7 @@ def r16_2(ctx):
     ctx.check("hybrids are registered as exec and write operand", stores == ["self.exec_ops[hybrid.get_name()]", "self.write_ops[hybrid.get_name()]"], "exec_ops and write_ops", str(stores), fn_where(idx, fa))
     exec_dependency_walk(ctx)
     every_effect_is_declared_in_both_layouts(ctx)
+    statement_comments_are_one_line(ctx)
 
 
 def every_effect_is_declared_in_both_layouts(ctx):
@@ -194,6 +195,25 @@ def every_effect_is_declared_in_both_layouts(ctx):
                 got[q] = sorted({outcome_text(o).count("RzILOpEffect *e = <write>;") if o.kind == "return" else -1 for o in outs})
             ctx.check(f"a written {c}{' without value' if void else ''} is declared once by the statement blocks and once by the WRITE block", got == {"emit_stmt_blocks": [1], "emit_write_block": [1]},
                       "one declaration in either layout", str(got), fn_where(idx, idx.func("RZILTransformer.emit_stmt_blocks")), nontrivial=(void or c != "Assignment"))
+
+
+def statement_comments_are_one_line(ctx):
+    """the statement layout prints `// <str(statement)>;` in front of every block: the text a node (or a type) gives for itself is one line -
+    a newline inside it starts a line that is neither comment nor declaration (Sequence cuts its text at a fixed length, so even a
+    continuation that brings its own `//` can be cut right behind the newline)"""
+    idx = get_index(ctx.env)
+    classes = set(idx.subclasses("Pure")) | set(idx.subclasses("Effect")) | {"ValueType"}
+    bad = []
+    n = 0
+    for c in sorted(classes):
+        fi = idx.own_method(c, "__str__")
+        if fi is None:
+            continue
+        n += 1
+        for k in ast.walk(fi.node):
+            if isinstance(k, ast.Constant) and isinstance(k.value, str) and ("\n" in k.value or "\r" in k.value):
+                bad.append(f"{c}.__str__:{k.lineno} {k.value!r}"[:80])
+    ctx.check("no node describes itself with a line break", n >= 10 and not bad, "single-line __str__", "; ".join(bad[:3]) or f"{n} __str__ methods, all single-line", "rzilcompiler/Transformer/")
 
 
 def exec_dependency_walk(ctx):
@@ -327,9 +347,10 @@ def r16_3(ctx):
     Interp(idx).explore(once2)
     a = box["a"]
     ctx.check("Assignment.set_dest keeps effect_ops in step", a.fields["dest"].label == "newdest" and sorted(x.label for x in a.fields["effect_ops"]) == ["newdest", "src"], "dest=newdest, effect_ops={newdest,src}", f"dest={a.fields['dest'].label}, effect_ops={[x.label for x in a.fields['effect_ops']]}", fn_where(idx, fd))
-    from .c11 import compound_nodes_registered
+    from .c11 import add_op_registers_what_it_returns, compound_nodes_registered
 
     compound_nodes_registered(ctx)
+    add_op_registers_what_it_returns(ctx)  # one node per operation: a node shared between two statements is declared once by the statement layout per statement list, but removed / re-typed for both
     # set_dest_type goes through the setters
     from .c03 import r03_3  # contains the set_dest_type setter-order instance
     fi = idx.func("RZILTransformer.set_dest_type")
